@@ -2,3 +2,7 @@ import Grol.Wire
 import Grol.Suite
 import Grol.Trie
 import Grol.TrieSuite
+import Grol.Object
+import Grol.Cmp
+import Grol.Value
+import Grol.CmpSuite
